@@ -9,7 +9,8 @@ THEOREMS = ['Core.c01_calls_once', 'Core.c01_flat', 'Core.c01_slot', 'Core.c01_s
             'Core.c01_split_slot', 'Core.unflatten_eq', 'Core.nest_get', 'Core.runShuffled_eq']
 ANCHORS = []
 RULE = ("grids of 1-5 arguments x 1-4 values (int/float/str, unsorted order, dict / list-of-pairs / single-pair "
-        "spelling), 0-2 constants, result kinds scalar/str/bool/tuple/nested list, 12 execution strategies incl. real "
+        "spelling) and grids of 27-120 combinations (powers, highly composite and prime counts) on the library's own "
+        "process pool with 2 / 3 / cpu_count workers, 0-2 constants, result kinds scalar/str/bool/tuple/nested list, 12 execution strategies incl. real "
         "pools and an adversarial executor completing futures in seeded arbitrary order, split/flat on/off; "
         "non-trivial = at least 2 arguments with >=2 values, or a non-identity permutation; distinct by full case")
 TRUSTED = ["real executors run each submitted call exactly once and return its value (the call log would show otherwise)",
@@ -51,12 +52,52 @@ def boundary(rng):
     return out
 
 
+POOL_STRATEGIES = ['num_workers', 'parallel_true', 'parallel_int']      # the library's own process pool (no executor given)
+BIG_COUNTS = [27, 32, 36, 64, 81, 100, 108, 120, 29, 31, 53, 97, 113]     # powers / highly composite / prime
+
+
+def _big_case(rng, n, name, workers):
+    """a grid of exactly n combinations (27..120: far more tasks than workers, n a multiple of few or of many small
+    numbers) run on the library's default process pool with 2 or 3 workers (or one per cpu)"""
+    shape = common.factor_shape(n, rng, maxdims=4)
+    c = _case(rng, heavy_ok=False, n_combo_args=len(shape))
+    sw = c['sweep']
+    for a, k in zip(sw['combo_args'], shape):
+        sw['values'][a] = sweeps.gen_values(rng, k)
+        o = list(range(k)); rng.shuffle(o); sw['combo_order'][a] = o
+    c['spelling'] = rng.choice(['dict', 'pairs'])
+    c['strategy'] = {'name': name}
+    if workers: c['strategy']['workers'] = workers
+    if rng.random() < 0.4: c['strategy']['shuffle'] = rng.randint(1, 50)
+    return c
+
+
+def big_cases(rng, tier):
+    out = []
+    # the same pool size is kept for consecutive cases: resizing the reusable pool starts new worker processes
+    plan = [('num_workers', 2), ('parallel_true', 2), ('parallel_int', 2), ('num_workers', 3), ('parallel_true', 3),
+            ('parallel_int', 3), ('parallel_true', None)]
+    per = 2 if tier == 'quick' else 12
+    counts = BIG_COUNTS[:]
+    rng.shuffle(counts)
+    i = 0
+    for name, w in plan:
+        for j in range(per):
+            if j % 2 == 0:
+                n = counts[i % len(counts)]; i += 1
+            else:
+                n = rng.randint(27, 120)
+            out.append(_big_case(rng, n, name, w))
+    return out
+
+
 def cases(ctx):
     rng = ctx.rng
     out = boundary(rng)
     n = 450 if ctx.tier == 'quick' else 4000
     for i in range(n):
         out.append(_case(rng, heavy_ok=(i % 4 == 0)))
+    out += big_cases(rng, ctx.tier)
     # a grid with a repeated value must be rejected before the function is called at all
     for i in range(20 if ctx.tier == 'quick' else 150):
         c = _case(rng, heavy_ok=False, n_vals=(2, 4))
@@ -83,6 +124,13 @@ def cases(ctx):
     for c in out:
         ctx.count('strategy', c['strategy']['name']); ctx.count('kind', next(iter(c['kind'])))
         ctx.count('n_args', len(c['sweep']['combo_args'])); ctx.count('split/flat', f"{c['split']}/{c['flat']}")
+        ns = sweeps.n_settings(c['sweep'])
+        ctx.count('n_combinations', '1-8' if ns <= 8 else '9-26' if ns <= 26 else '27-60' if ns <= 60 else '61-120' if ns <= 120 else '>120')
+        if c['strategy']['name'] in POOL_STRATEGIES:
+            w = c['strategy'].get('workers') or (2 if c['strategy']['name'] != 'parallel_true' else 'cpu_count')
+            ctx.count('default_pool_workers', w)
+            if ns >= 27:
+                ctx.count('default_pool_big_grid', f"workers={w} n={ns}")
     return out
 
 
